@@ -64,7 +64,7 @@ def run(ctx, rep):
                 n_sites += 1
                 rep.check(f.qual == "BaseFlumine._process_custom_event" and _inside_try(f, c), "R1",
                           "custom event callback: " + key(f, c), f, c)
-    rep.floor("R1", "callback dispatch sites", n_sites, 15)
+    rep.floor("R1", "callback dispatch sites", n_sites, 8)
     # middleware is dispatched through the wrapper wherever it is iterated for calling
     n_mw = 0
     for f in prog.all_functions():
